@@ -107,7 +107,7 @@ func main() {
 		}
 		return os.Open(f)
 	})
-	var setCalls, forwards, ranges []site
+	var setCalls, forwards, ranges, others []site
 	npk, nfn, nsqlfn := 0, 0, 0
 	var unchecked []string
 	for _, p := range pkgs {
@@ -127,6 +127,14 @@ func main() {
 			unchecked = append(unchecked, strings.TrimPrefix(p.ImportPath, prefix))
 		}
 		npk++
+		importsSQL := p.ImportPath == sqlPkg
+		for _, f := range files {
+			for _, im := range f.Imports {
+				if strings.Trim(im.Path.Value, `"`) == sqlPkg {
+					importsSQL = true
+				}
+			}
+		}
 		for _, f := range files {
 			rel, _ := filepath.Rel(repo, fset.Position(f.Pos()).Filename)
 			for _, d := range f.Decls {
@@ -163,6 +171,11 @@ func main() {
 					}
 					return true
 				})
+				if !usesSQL && importsSQL {
+					for i, r := range rs {
+						others = append(others, site{File: rel, Func: name, Expr: exprText(fset, r.X), Ord: i})
+					}
+				}
 				if usesSQL {
 					nsqlfn++
 					for i, r := range rs {
@@ -219,7 +232,7 @@ func main() {
 	if err := os.WriteFile(os.Args[2], []byte(b.String()), 0o644); err != nil {
 		panic(err)
 	}
-	js, _ := json.MarshalIndent(map[string]interface{}{"set_setting_calls": setCalls, "set_setting_forwarders": forwards, "sql_map_ranges": ranges,
+	js, _ := json.MarshalIndent(map[string]interface{}{"set_setting_calls": setCalls, "set_setting_forwarders": forwards, "other_map_ranges_in_sql_packages": others, "sql_map_ranges": ranges,
 		"packages": npk, "functions": nfn, "sql_building_functions": nsqlfn, "packages_not_compiling": unchecked}, "", " ")
 	if err := os.WriteFile(os.Args[3], js, 0o644); err != nil {
 		panic(err)
